@@ -581,6 +581,35 @@ var tsVariants = []tsVariant{
 	{"millis", func(b int64) string { return fmt.Sprint(b * 1000) }},
 	{"minus-1day", func(b int64) string { return fmt.Sprint(b - 86400) }},
 	{"minus-5h", func(b int64) string { return fmt.Sprint(b - 5*3600 + 600) }}, // 4h50 old: inside a 5-HOUR window
+	// already older than the five-minute window when the harness signs them - and older still at every
+	// later instant, so they must be refused whatever the scheduling. The first group lies inside a
+	// typical clock-skew allowance (30 / 45 / 60 s); then a six-minute window, and wider ones.
+	{"just-stale-301s", func(b int64) string { return fmt.Sprint(b - 301) }},
+	{"just-stale-303s", func(b int64) string { return fmt.Sprint(b - 303) }},
+	{"just-stale-310s", func(b int64) string { return fmt.Sprint(b - 310) }},
+	{"just-stale-320s", func(b int64) string { return fmt.Sprint(b - 320) }},
+	{"just-stale-329s", func(b int64) string { return fmt.Sprint(b - 329) }},
+	{"just-stale-340s", func(b int64) string { return fmt.Sprint(b - 340) }},
+	{"just-stale-345s", func(b int64) string { return fmt.Sprint(b - 345) }},
+	{"stale-355s", func(b int64) string { return fmt.Sprint(b - 355) }},
+	{"stale-7min", func(b int64) string { return fmt.Sprint(b - 420) }},
+	{"stale-30min", func(b int64) string { return fmt.Sprint(b - 1800) }},
+	// the boundary itself and the young side: may cross the line before the authenticator looks
+	{"edge-300s", func(b int64) string { return fmt.Sprint(b - 300) }},
+	{"edge-297s", func(b int64) string { return fmt.Sprint(b - 297) }},
 }
 
 var freshTS = []int{2, 3, 4} // indexes of minus-4min, minus-1min, now
+
+// justStaleTS: indexes of the variants that are 301 ... 345 s old when signed.
+var justStaleTS []int
+
+func init() {
+	for i, v := range tsVariants {
+		if strings.HasPrefix(v.name, "just-stale-") {
+			justStaleTS = append(justStaleTS, i)
+		}
+	}
+}
+
+func isJustStale(tsVar string) bool { return strings.HasPrefix(tsVar, "just-stale-") }
